@@ -36,6 +36,14 @@ DescMutants(d, sub) ==
   UNION {{[bytes |-> m.bytes, label |-> <<"descmut", X>> \o m.label] : m \in SemanticMutants(d, X, DefaultVal(d, X))}
            : X \in sub}
 
+(* the default encoding of every descendant cut short and extended by a few octets: read through the ancestor, the  *)
+(* constraints still select the descendant but its payload no longer has the right length                            *)
+DescResized(d, sub) ==
+  UNION {LET e == EncodeType(d, X, DefaultVal(d, X)).bytes IN
+         {[bytes |-> b, label |-> <<"descprefix", X>>] : b \in Prefixes(e)}
+         \cup {[bytes |-> b, label |-> <<"descextend", X>>] : b \in Extensions(e)}
+           : X \in sub}
+
 DecStimuli(d, id) ==
   LET vs == WellFormed(d, id, ValSet(d, id) \cup PresenceSet(d, id))
       base == DefaultVal(d, id)
@@ -74,18 +82,21 @@ StimuliFor(j) ==
          IN {[k |-> m, bytes |-> b, val |-> NoneV, label |-> <<"descendant">>] : b \in encs}
             \cup {[k |-> m, bytes |-> s.bytes, val |-> NoneV, label |-> s.label] : s \in DecStimuli(d, P)}
             \cup {[k |-> m, bytes |-> s.bytes, val |-> NoneV, label |-> s.label] : s \in DescMutants(d, sub)}
+            \cup {[k |-> m, bytes |-> s.bytes, val |-> NoneV, label |-> s.label] : s \in DescResized(d, sub)}
     [] m = "javaparse" ->
          LET sub == Descendants(d, id, 6)
              encs == UNION {{EncodeType(d, X, v).bytes : v \in WellFormed(d, X, ValSet(d, X))} : X \in sub}
          IN {[k |-> "javaparse", bytes |-> b, val |-> NoneV, label |-> <<"descendant">>] : b \in encs}
             \cup {[k |-> "javaparse", bytes |-> s.bytes, val |-> NoneV, label |-> s.label] : s \in DecStimuli(d, id)}
             \cup {[k |-> "javaparse", bytes |-> s.bytes, val |-> NoneV, label |-> s.label] : s \in DescMutants(d, sub)}
+            \cup {[k |-> "javaparse", bytes |-> s.bytes, val |-> NoneV, label |-> s.label] : s \in DescResized(d, sub)}
     [] m = "pyparse" ->
          LET sub == Descendants(d, id, 6)
              encs == UNION {{EncodeType(d, X, v).bytes : v \in WellFormed(d, X, ValSet(d, X))} : X \in sub}
          IN {[k |-> "pyparse", bytes |-> b, val |-> NoneV, label |-> <<"descendant">>] : b \in encs}
             \cup {[k |-> "pyparse", bytes |-> s.bytes, val |-> NoneV, label |-> s.label] : s \in DecStimuli(d, id)}
             \cup {[k |-> "pyparse", bytes |-> s.bytes, val |-> NoneV, label |-> s.label] : s \in DescMutants(d, sub)}
+            \cup {[k |-> "pyparse", bytes |-> s.bytes, val |-> NoneV, label |-> s.label] : s \in DescResized(d, sub)}
     [] m = "up" ->
          {[k |-> "up", bytes |-> <<>>, val |-> v, label |-> <<"valset">>] : v \in WellFormed(d, id, ValSet(d, id))}
     [] m = "enum" ->
